@@ -332,12 +332,42 @@ PROPS = {
     },
     "C06": {
         "module": "ZenonVerif.Props.C06",
+        "extra_modules": ["ZenonVerif.Props.C06Node"],
         "streams": [S("vdb", 400, 20000, arg="mix=pop"), S("ledger", 40, 2000), S("sync-batches", 300, 6000, timeout=3000), S("pool-node", 8, 150, driver=False)],
-        "rule": VDB_RULE + "; pop-heavy mix: views are opened before a branch switch and re-read after it",
-        "partial": "pool-after-switch and consensus statistics after a switch are monitor-only: the ledger stream rolls the producing "
-                   "node back by 1-3 momentums (pool must be empty, conservation at the pool state) and the sync-batches stream compares "
-                   "every follower that went through switches / refused batches with a fresh node fed only its current chain (state "
-                   "digest, historical views, pool, epoch statistics, delegations, weights, elected producer of every slot)",
+        "rule": VDB_RULE + "; pop-heavy mix: views are opened before a branch switch and re-read after it. nc- lines of the sync-batches "
+                "stream (s_nodecache.go, replayed through Model/NodeCache.lean by Driver/NodeCache.lean): followers whose consensus "
+                "database the harness reads directly go through extensions, reorganisations by the real InsertChain (the switch across "
+                "an election-tick and epoch end with and without a query before it, three switches at random depths within the window, "
+                "back to the trunk when it is longer), plain chain.RollbackTo of 1..40 momentums (one across the epoch end) followed by "
+                "a re-extension, and a branch with a production gap whose node is rolled back to exactly the last momentum of an epoch "
+                "that had been finished; one evaluation = one line: a momentum inserted (the model first looks up the producer of its "
+                "slot, then runs the two InsertMomentum listeners), k momentums deleted, EpochStats(T) of every epoch up to one past the "
+                "frontier (answer classified on the real node as served / recomputed / future by what happened to the stored point; the "
+                "model says served iff the stored end hash is the hash the current chain has at the end of the epoch; compared: the "
+                "number of period points merged = sum ExpectedNum / NodeCount, and FactualNum per pillar), the complete content of the "
+                "consensus database after every group of events (every stored period and epoch point: tick, end hash, merged periods, "
+                "momentums per pillar; the set of proof hashes election results are stored for) against the model's caches, and "
+                "GetEndBlock of every period tick against the model's cut of the chain; model-free: every EpochStats answer against a "
+                "consensus instance with an empty database that never listened, on the same chain",
+        "partial": "the versioned store is covered by the theorems of Props/C06.lean; the consensus database (election results by proof "
+                   "hash, period and epoch points by tick with their end hash, the two never-rolled-back counters of points) and the "
+                   "account pool's lazily built managers under RollbackTo are covered by Props/C06Node.lean over Model/NodeCache.lean: "
+                   "for an ARBITRARY specification of what an election / a period point / a compound point is as a function of the chain, "
+                   "under the explicit hash-chaining hypothesis ChainWF (a hash names one chain). What is NOT a theorem there: the epoch "
+                   "reader is proved trace-free for epochs that are finished on the current chain or have not started (every epoch a "
+                   "reward is paid for) and for unfinished ones only when no stored point carries the current end hash - the remaining "
+                   "case is real (finding FX1, witness epoch_unfinished_after_rollback_keeps_trace, reproduced on a real node by the gap "
+                   "scenario); the election, ComputePillarDelegations, weights and ExpectedNum are oracle values (the driver's instance "
+                   "counts merged periods and momentums per pillar); the LRU in front of the consensus database is not modelled (2016 "
+                   "entries, never evicted in the streams; its persistence round trips are C05 monitors); GetMomentumBeforeTime = cut "
+                   "needs increasing timestamps (C05); in the pool model a manager is the chain it was built from plus the acknowledged "
+                   "momentums of its blocks (block content and the fork rules are C14's model) and the interleaving of readers with "
+                   "RollbackTo is the one the lock discipline allows: reads between a pop and the notification and after it (the "
+                   "insert lock keeps block additions out). Model-free on real nodes, as before: the ledger stream rolls the producing "
+                   "node back by 1-3 momentums (pool must be empty, conservation at the pool state), pool-node rolls back under "
+                   "concurrent readers, and the sync-batches stream compares every follower that went through switches / refused "
+                   "batches with a fresh node fed only its current chain (state digest, historical views, pool, epoch statistics, "
+                   "delegations, weights, elected producer of every slot)",
     },
     "C05": {
         "module": "ZenonVerif.Props.C05",
